@@ -63,6 +63,33 @@ func runC20(r *RunCtx) error {
 		if i < 2 {
 			r.Sample(map[string]interface{}{"fn": "MerklePath", "path": path, "impl": got})
 		}
+		// --- call sequences: the address of a path must not depend on which path was hashed just before.  Right after
+		// path P the same function is asked for paths that merely START with P's characters (P+"x", P+".txt",
+		// P+"work/b", P itself, P minus its last character): each answer is compared with a from-scratch computation
+		// here and with the model.
+		for ci, cont := range []string{"x", ".txt", "work/b", "", "0"} {
+			if ci >= 2 && !p.Chance(1, 2) {
+				continue
+			}
+			p2 := path + cont
+			if cont == "" && len(path) > 1 {
+				_ = fttypes.MerklePath(path)
+				p2 = path[:len(path)-1]
+			}
+			_ = fttypes.MerklePath(path) // the call just before
+			got2 := fttypes.MerklePath(p2)
+			ref := ""
+			for _, chunk := range strings.Split(strings.TrimSuffix(p2, "/"), "/") {
+				ref = hexsha(ref + hexsha(chunk))
+			}
+			d2 := map[string]interface{}{"fn": "MerklePath", "called_just_before_hex": hex.EncodeToString([]byte(path)), "path_hex": hex.EncodeToString([]byte(p2)), "got": got2, "from_scratch": ref}
+			if got2 != ref {
+				r.Finding("C20/address-depends-on-earlier-call", "MerklePath(q) called right after MerklePath(p), where q starts with the characters of p, is not the address of q's own segment sequence", d2)
+			}
+			r.Case("fn", fmt.Sprintf("MPath %s %s", cStr(p2), cStr(got2)), d2)
+			r.Count("mp:"+p2, true)
+		}
+		_ = fttypes.MerklePath(path)
 		// --- monitors on the implementation (the property itself) ---
 		// trailing slash neutral
 		if !strings.HasSuffix(path, "/") {
@@ -126,6 +153,9 @@ func runC20(r *RunCtx) error {
 		d := sha256.Sum256(in)
 		r.Case("fn", fmt.Sprintf("Sha %s %s", cBytes(in), cBytes(d[:])), map[string]interface{}{"fn": "sha256", "in_hex": hex.EncodeToString(in)})
 		r.Count("sha:"+string(in), len(in) > 0)
+	}
+	if err := c20CLI(r); err != nil {
+		return err
 	}
 	// history level: PostFile on the assembled app returns the address computed from the plain path
 	e, err := NewEnv()
